@@ -155,7 +155,7 @@ func hpRunOne(b *hpBehaviour, res *verifutil.Result) (infra string) {
 			case <-cl.gate.reached:
 			case err := <-cl.done:
 				return fmt.Sprintf("%v: the handler finished before reaching the send point (err %v)", trail, err)
-			case <-time.After(5 * time.Second):
+			case <-time.After(60 * time.Second):
 				return fmt.Sprintf("%v: the handler did not reach the send point", trail)
 			}
 		case "send":
@@ -166,11 +166,11 @@ func hpRunOne(b *hpBehaviour, res *verifutil.Result) (infra string) {
 				if err != nil {
 					return fmt.Sprintf("%v: handler error %v", trail, err)
 				}
-			case <-time.After(5 * time.Second):
+			case <-time.After(60 * time.Second):
 				return fmt.Sprintf("%v: the handler did not finish", trail)
 			}
 			buf := make([]byte, 4096)
-			_ = cl.conn.SetReadDeadline(time.Now().Add(3 * time.Second))
+			_ = cl.conn.SetReadDeadline(time.Now().Add(60 * time.Second))
 			n, _, err := cl.conn.ReadFromUDPAddrPort(buf)
 			if err != nil {
 				return fmt.Sprintf("%v: client %s received nothing: %v", trail, ev.C, err)
